@@ -497,7 +497,7 @@ func (m *MsgBridgeCallClaim) GetClaimer() sdk.AccAddress {
 }
 
 func (m *MsgBridgeCallClaim) ClaimHash() []byte {
-	path := fmt.Sprintf("%d/%d/%s/%s/%s/%s/%v/%v/%s", m.BlockHeight, m.EventNonce, m.Sender, m.Refund, m.To, m.TokenContracts, m.Amounts, m.Data, m.Value.String())
+	path := fmt.Sprintf("%d/%d/%s/%s/%s/%s/%v/%v/%s/%s/%s", m.BlockHeight, m.EventNonce, m.Sender, m.Refund, m.To, m.TokenContracts, m.Amounts, m.Data, m.Value.String(), m.Memo, m.TxOrigin)
 	return tmhash.Sum([]byte(path))
 }
 
@@ -596,7 +596,7 @@ func (m *MsgBridgeCallResultClaim) GetSigners() []sdk.AccAddress {
 }
 
 func (m *MsgBridgeCallResultClaim) ClaimHash() []byte {
-	path := fmt.Sprintf("%d/%d/%d/%t/%s", m.BlockHeight, m.EventNonce, m.Nonce, m.Success, m.Cause)
+	path := fmt.Sprintf("%d/%d/%d/%t/%s/%s", m.BlockHeight, m.EventNonce, m.Nonce, m.Success, m.Cause, m.TxOrigin)
 	return tmhash.Sum([]byte(path))
 }
 
@@ -672,7 +672,8 @@ func (m *MsgBridgeTokenClaim) GetType() ClaimType {
 }
 
 func (m *MsgBridgeTokenClaim) ClaimHash() []byte {
-	path := fmt.Sprintf("%d/%d%s/%s/%s/%d/%s/", m.BlockHeight, m.EventNonce, m.TokenContract, m.Name, m.Symbol, m.Decimals, m.ChannelIbc)
+	// name and symbol are free-form and may contain the separator: their lengths fix where one ends and the next begins
+	path := fmt.Sprintf("%d/%d%s/%s/%s/%d/%s/%d/%d", m.BlockHeight, m.EventNonce, m.TokenContract, m.Name, m.Symbol, m.Decimals, m.ChannelIbc, len(m.Name), len(m.Symbol))
 	return tmhash.Sum([]byte(path))
 }
 
